@@ -1,7 +1,7 @@
 """comps_dflt.py - T2 component of the dflt slice (coq/Implicit.v, coq/WithDefaults.v), property C07.
 
 DfltModel: generated module (defaults, default leaf-lists, nested choices with default cases incl. choices nested in cases,
-NP and presence containers, lists holding all of these; what Tree.v models, no when/must/unique) x trees built by a
+NP and presence containers, lists holding all of these; what Tree.v models, no when/must/unique - when: see WhenDefaults below) x trees built by a
 PARSE_ONLY parse (no implicit nodes yet) and by edit histories (lyx commands freen / freepath / chgpath / newpath, and
 a print with tagged defaults parsed back, which yields nodes that are new AND default) -> libyang (impl/lyx.c) runs
 lyd_validate_all / lyd_new_implicit_all with the returned diff, dumps the tree (default and new flags) and the diff, and
@@ -709,7 +709,7 @@ class WhenRef:
             c.setdefault("mode", rng.choice(cls.CONDS))
             for p in ("auto", "manual", "inner"):
                 c[p] = rng.choice(cls.CONDS + (None,))
-        return cls({"c": c, "dep": "dl" in c and rng.random() < 0.6 and not __import__("os").environ.get("NODEP"), "top": rng.random() < 0.4, "last": rng.random() < 0.4})
+        return cls({"c": c, "dep": "dl" in c and rng.random() < 0.15, "top": rng.random() < 0.4, "last": rng.random() < 0.4})
 
     @staticmethod
     def cond_text(cond, up):
@@ -1086,17 +1086,98 @@ class WhenDefaults(oracles_mod.Oracle):
     parsed with validation (lyd_parse_data). Expected trees: WhenRef (python, conditions evaluated on its own record)."""
     name = "when-defaults"
 
+    module_api = False           # True: lyd_validate_module through impl/t_valid.c (no diff there)
+
+    class LyxScript(Script):
+        """the history as commands of impl/lyx.c"""
+        def start(self, yang):
+            self.ctx(opts=0x04)
+            self.mod(yang)
+
+        def newpath(self, path, val):
+            self.add("newpath", "t0", "c0", NEWPATH_UPDATE, hexs(path), hexs(val) if val != "~" else "~")
+
+        def freepath(self, path):
+            self.add("freepath", "t0", hexs(path))
+
+        def parsed(self, xml):
+            self.parse(5, "x", xml, popts=PARSE_STRICT, vopts=0)
+            self.dump(5, 0)
+
+        def validate(self):
+            self.add("dup", "t0", "t1", oracles_mod.DUPF)
+            self.add("val", "t0", "c0", 0, "t2")
+            self.dump(0, 0)
+            self.add("apply", "t1", "t2")
+            self.add("cmp", "t1", "t0", oracles_mod.CMPX)
+            self.add("val", "t0", "c0", 0, "t3")
+            self.dump(0, 0)
+            self.dump(3, 0)
+
+    class ValidScript(LyxScript):
+        """the same history as commands of impl/t_valid.c: validation with lyd_validate_module"""
+        def start(self, yang):
+            self.add("mod", hexs(yang), 0x04)
+
+        def newpath(self, path, val):
+            self.add("newpath", "t0", NEWPATH_UPDATE, hexs(path), hexs(val) if val != "~" else "~")
+
+        def parsed(self, xml):
+            self.add("parse", "t5", "x", PARSE_STRICT, 0, hexs(xml))
+            self.dump(5, 0)
+
+        def validate(self):
+            self.add("val", "t0", 0, "m")
+            self.dump(0, 0)
+            self.add("val", "t0", 0, "m")
+            self.dump(0, 0)
+
+        def line(self):
+            return "valid\t" + "\t".join(self.cmds)
+
+    @staticmethod
+    def events(line, r):
+        """the case line and its results as (module text, [event]): ("new", path, value, result), ("free", path, result),
+        ("parse", xml, result, dump), ("val", {rc1, d1, apply, cmp, rc2, d2, diff2}); None where the driver has no such step"""
+        from vlib import unhex
+        cmds = line.split("\t")[1:]
+        txt = lambda h: None if h == "~" else unhex(h).decode()
+        ev, k = [], 0
+        if line.startswith("valid\t"):
+            yang, ok, k = txt(cmds[0].split(" ")[1]), r[0] == "0", 1
+        else:
+            yang, ok, k = txt(cmds[1].split(" ")[3]), r[0] == "0" and r[1] == "0", 2
+        if not ok or len(r) < len(cmds):
+            return yang, None
+        while k < len(cmds):
+            w = cmds[k].split(" ")
+            if w[0] == "newpath":
+                ev.append(("new", txt(w[-2]), txt(w[-1]), r[k]))
+            elif w[0] == "freepath":
+                ev.append(("free", txt(w[2]), r[k]))
+            elif w[0] == "parse":
+                ev.append(("parse", txt(w[-1]), r[k], r[k + 1]))
+                k += 1
+            elif w[0] == "dup" and w[1] == "t0" and w[2] == "t1":
+                ev.append(("val", {"rc1": r[k + 1], "d1": r[k + 2], "apply": r[k + 3], "cmp": r[k + 4], "rc2": r[k + 5],
+                                   "d2": r[k + 6], "diff2": r[k + 7]}))
+                k += 7
+            elif w[0] == "val":
+                ev.append(("val", {"rc1": r[k], "d1": r[k + 1], "apply": None, "cmp": None, "rc2": r[k + 2], "d2": r[k + 3],
+                                   "diff2": None}))
+                k += 3
+            k += 1
+        return yang, ev
+
     def gen(self, rng, tier, scale=1.0):
         L = []
         for i in range(self.n(tier, 500, 8000, scale)):
             ref = WhenRef.random(rng)
             st = ref.init()
-            s = Script()
-            s.ctx(opts=0x04)
-            s.mod(ref.yang())
+            s = self.ValidScript() if self.module_api else self.LyxScript()
+            s.start(ref.yang())
             flips = []
             for rnd in range(rng.choice([3, 4, 5, 6])):
-                ok = True
                 # the controlling leaves first: most explicit nodes are then created where their when holds, validated
                 # (LYD_WHEN_TRUE) and meet a false when only in a later round
                 ne = rng.choice([0, 1, 1, 2, 3]) if rnd else rng.choice([0, 0, 1, 2, 4])
@@ -1106,16 +1187,8 @@ class WhenDefaults(oracles_mod.Oracle):
                     p, v = flips.pop()                  # flip a controlling leaf back
                     self.emit(ref, st, s, p, v)
                 if rng.random() < 0.3:
-                    s.parse(5, "x", ref.xml(st), popts=PARSE_STRICT, vopts=0)
-                    s.dump(5, 0)
-                s.add("dup", "t0", "t1", oracles_mod.DUPF)
-                s.add("val", "t0", "c0", 0, "t2")
-                s.dump(0, 0)
-                s.add("apply", "t1", "t2")
-                s.add("cmp", "t1", "t0", oracles_mod.CMPX)
-                s.add("val", "t0", "c0", 0, "t3")
-                s.dump(0, 0)
-                s.dump(3, 0)
+                    s.parsed(ref.xml(st))
+                s.validate()
                 bad, _ = ref.resolve(st)
                 if bad:
                     break
@@ -1127,10 +1200,10 @@ class WhenDefaults(oracles_mod.Oracle):
     def emit(ref, st, s, path, val):
         if val is None:
             ref.edit_free(st, path)
-            s.add("freepath", "t0", hexs(path))
+            s.freepath(path)
         else:
             ref.edit_new(st, path, val)
-            s.add("newpath", "t0", "c0", NEWPATH_UPDATE, hexs(path), hexs(val) if val != "~" else "~")
+            s.newpath(path, val)
 
     def edit(self, rng, ref, st, s, flips, what):
         c, E = ref.c, st["E"]
@@ -1217,66 +1290,92 @@ class WhenDefaults(oracles_mod.Oracle):
                     self.emit(ref, st, s, "/m1:box/" + o, None)
         self.emit(ref, st, s, k if k.startswith("/") else "/m1:box/" + k, v)
 
+    STALE = ("when-stale-dependency", ": the when of leaf dep reads leaf dl, itself conditional; a dl node that is about to be "
+             "deleted (its own when is false now) still carries LYD_WHEN_TRUE - from the previous validation or preset by "
+             "lyd_new_implicit - so dep's when is evaluated against it")
+
+    @staticmethod
+    def no_dep(nodes):
+        # (the default flag of the container around dep follows from dep being there or not)
+        return [[n, v, d and v is not None, [x for x in ch if x[0] != "dep"]] for n, v, d, ch in nodes]
+
     def judge(self, line, out):
         import copy
-        from vlib import unhex
         if oracles_mod.crashed(out):
             return (None, "crash: " + out)
-        r = results(out)
-        cmds = line.split("\t")[1:]
-        if len(r) < len(cmds) or r[0] != "0" or r[1] != "0":
-            return (None, "the module of the case is not accepted: " + " | ".join(r[:2])[:200])
-        ref = WhenRef.of_yang(unhex(cmds[1].split(" ")[3]).decode())
+        yang, ev = self.events(line, results(out))
+        if ev is None:
+            return (None, "the module of the case is not accepted: " + out[:200])
+        ref = WhenRef.of_yang(yang)
         st = ref.init()
-        k, rnd = 2, 0
-        while k < len(cmds):
-            w = cmds[k].split(" ")
-            if w[0] == "newpath":
-                if not ref.edit_new(st, unhex(w[4]).decode(), None if w[5] == "~" else unhex(w[5]).decode()) or rc(r[k]) != 0:
-                    return (None, "lyd_new_path failed: %s -> %s" % (unhex(w[4]).decode(), r[k]))
-            elif w[0] == "freepath":
-                if not ref.edit_free(st, unhex(w[2]).decode()) or r[k] != "0":
-                    return (None, "node to free not found: %s -> %s" % (unhex(w[2]).decode(), r[k]))
-            elif w[0] == "parse":
-                if unhex(w[6]).decode() != ref.xml(st):
+        nd = self.no_dep if ref.cfg["dep"] else (lambda t: t)
+        rnd = 0
+        for e in ev:
+            if e[0] == "new":
+                if not ref.edit_new(st, e[1], e[2]) or rc(e[3]) != 0:
+                    return (None, "lyd_new_path failed: %s -> %s" % (e[1], e[3]))
+            elif e[0] == "free":
+                if not ref.edit_free(st, e[1]) or e[2] != "0":
+                    return (None, "node to free not found: %s -> %s" % (e[1], e[2]))
+            elif e[0] == "parse":
+                if e[1] != ref.xml(st):
                     return None                       # not a document of the explicit content: not judged
                 bad = ref.false_units(st)
-                if bad and rc(r[k]) == 0:
-                    return (None, "parsing with validation accepts the explicit node %s whose when is false: %s"
-                            % (bad[0], ref.xml(st)))
+                if bad and rc(e[2]) == 0:
+                    return (self.STALE[0] if bad == ["dep"] else None, "parsing with validation accepts the explicit node %s "
+                            "whose when is false: %s" % (bad[0], e[1]))
                 if not bad:
-                    if rc(r[k]) != 0:
-                        return (None, "parsing with validation rejects valid data (%s): %s" % (r[k][:150], ref.xml(st)))
+                    if rc(e[2]) != 0:
+                        return (None, "parsing with validation rejects valid data (%s): %s" % (e[2][:150], e[1]))
                     want = ref.canon(ref.nf(copy.deepcopy(st)))
-                    got = ref.canon(ref.of_dump(r[k + 1]))
+                    got = ref.canon(ref.of_dump(e[3]))
                     if got != want:
-                        return (None, "parsed with validation, %s gives [%s], expected (when conditions evaluated by the "
-                                      "reference) [%s]" % (ref.xml(st), ref.show(got), ref.show(want)))
-            elif w[0] == "dup" and w[1] == "t0" and w[2] == "t1":
+                        return (self.STALE[0] if ref.cfg["dep"] and nd(got) == nd(want) else None,
+                                "parsed with validation, %s gives [%s], expected (when conditions evaluated by the reference) [%s]"
+                                % (e[1], ref.show(got), ref.show(want)))
+            else:
+                v = e[1]
                 rnd += 1
                 before = ref.xml(st)
                 bad, deleted = ref.resolve(st)
                 if bad:
-                    if rc(r[k + 1]) == 0:
-                        return (None, "round %d: validation accepts the explicit node %s whose when is false and was never "
-                                      "true (explicit content %s)" % (rnd, bad, before))
+                    if rc(v["rc1"]) == 0:
+                        return (self.STALE[0] if bad == "dep" else None, "round %d: validation accepts the explicit node %s whose "
+                                "when is false and was never true (explicit content %s)" % (rnd, bad, before))
                     return None
-                if rc(r[k + 1]) != 0:
+                if rc(v["rc1"]) != 0:
                     return (None, "round %d: validation rejects valid data (%s); explicit content %s, nodes whose when "
-                                  "turned false: %s" % (rnd, r[k + 1][:150], before, deleted))
+                                  "turned false: %s" % (rnd, v["rc1"][:150], before, deleted))
                 want = ref.canon(ref.nf(st))
-                got = ref.canon(ref.of_dump(r[k + 2]))
+                got = ref.canon(ref.of_dump(v["d1"]))
                 if got != want:
-                    return (None, "round %d: after validation of explicit content %s (auto-deleted: %s) the tree is [%s], "
-                                  "expected [%s]" % (rnd, before, deleted, ref.show(got), ref.show(want)))
-                if rc(r[k + 3]) != 0 or r[k + 4] != "0":
+                    tag, why = None, ""
+                    if ref.cfg["dep"] and nd(got) == nd(want):
+                        tag, why = self.STALE
+                    elif set(deleted) & {"label", "ival", "value"} and rc(v["rc2"]) == 0 and \
+                            nd(ref.canon(ref.of_dump(v["d2"]))) == nd(want) and \
+                            [x for x in nd(want)[-1][3] if x[0] not in ("level", "ilev", "mdef")] == nd(got)[-1][3]:
+                        tag, why = "when-autodel-default-case", ": the explicit nodes of a case were deleted because the when " \
+                            "of the case turned false, the default case is only instantiated by the NEXT validation"
+                    return (tag, "round %d: after validation of explicit content %s (auto-deleted: %s) the tree is [%s], "
+                                 "expected [%s]%s" % (rnd, before, deleted, ref.show(got), ref.show(want), why))
+                if v["apply"] is not None and (rc(v["apply"]) != 0 or v["cmp"] != "0"):
                     return (None, "round %d: the returned change set applied to the tree before does not give the tree after "
-                                  "(apply %s, compare %s)" % (rnd, r[k + 3], r[k + 4]))
-                if rc(r[k + 5]) != 0 or DfltModel.only_m1(r[k + 6]) != DfltModel.only_m1(r[k + 2]):
-                    return (None, "round %d: the second validation changed the tree (%s): [%s]"
-                            % (rnd, r[k + 5], ref.show(ref.of_dump(r[k + 6]))))
-                if r[k + 7] != "empty":
+                                  "(apply %s, compare %s)" % (rnd, v["apply"], v["cmp"]))
+                if rc(v["rc2"]) != 0 or DfltModel.only_m1(v["d2"]) != DfltModel.only_m1(v["d1"]):
+                    stale = ref.cfg["dep"] and rc(v["rc2"]) == 0 and nd(ref.of_dump(v["d2"])) == nd(ref.of_dump(v["d1"]))
+                    return (self.STALE[0] if stale else None, "round %d: the second validation changed the tree (%s): [%s]%s"
+                            % (rnd, v["rc2"], ref.show(ref.of_dump(v["d2"])), self.STALE[1] if stale else ""))
+                if v["diff2"] not in (None, "empty"):
                     return (None, "round %d: the second validation reports a non-empty change set" % rnd)
-                k += 7
-            k += 1
         return None
+
+
+class WhenDefaultsModule(WhenDefaults):
+    """the histories of when-defaults validated with lyd_validate_module (driver impl/t_valid.c; no change set there)"""
+    name = "when-defaults-module"
+    driver = "t_valid"
+    module_api = True
+
+    def n(self, tier, quick, thorough, scale=1.0):
+        return super().n(tier, quick // 2, thorough // 2, scale)
